@@ -68,7 +68,13 @@ def generate_package(document: dict, config: dict | None = None) -> Package:
     import contextlib
     import io
     with contextlib.redirect_stdout(io.StringIO()):
-        errors = generate(config=cfg)
+        try:
+            errors = generate(config=cfg)
+        except Exception as e:      # noqa: BLE001
+            import traceback
+            from .replay import GeneratorCrashed
+            raise GeneratorCrashed(f"{type(e).__name__}: {e}", document, {k: v for k, v in cf.items() if k != "package_name_override"},
+                                   "none", traceback.format_exc(limit=6)) from e
     sys.path.insert(0, str(tmp))
     importlib.invalidate_caches()
     pkg = Package(name, tmp / name, errors, tmp)
